@@ -659,6 +659,23 @@ def completed_collections_check(oc, pid):
                 if bad:
                     oc.failing.append({'kind': 'collection-stages', 'docs': docs, 'strict': strict, 'label': f'completed roCreate document + {k} late messages via {via} strict={strict}',
                                        'spec': '; '.join(bad), 'impl': {'err': o['err'], 'run_err': run.get('err'), 'warns': run.get('warns')}})
+    # message IDs that tie: the roDelete and a message supplied after it carry the same ID - both are messages of the collection
+    tied = [TJ.to_text(B.ro_doc([B.story('A', [B.item('a1')])], message_id='1')), TJ.to_text(B.story_append([B.story('N')], message_id='2')),
+            TJ.to_text(B.ro_delete(message_id='7')), TJ.to_text(B.story_append([B.story('LATE')], message_id='7'))]
+    for via in ('strings', 'files'):
+        for strict in (False, True):
+            o = impl_collection(tied, False, strict, via=via)
+            oc.evaluations += 1
+            oc.in_domain += 1
+            oc.count('completed-collection:tied-ids')
+            run = o.get('run') or {}
+            ids_after = [TJ.child_text(c, 'storyID') for c in (TJ.find(run['ro'], 'roCreate') or [0, 0, 0, 0, []])[4] if c[0] == 'story'] if run else None
+            ok = (o['err'] is None and run and TJ.find(run['ro'], 'mosromgrmeta') is not None and ids_after == ['A', 'N'] and
+                  ((run['err'] == 'MosCompletedMergeError') if strict else (run['err'] is None and run['warns'].count('MosMergeNonStrictWarning') == 1)))
+            if not ok:
+                oc.failing.append({'kind': 'collection-stages', 'docs': tied, 'strict': strict, 'label': f'roDelete and a later message share a message ID via {via} strict={strict}',
+                                   'spec': 'the roDelete completes the running order and the message after it is refused (MosCompletedMergeError / one warning), whatever their message IDs',
+                                   'impl': {'err': o['err'], 'run_err': run.get('err'), 'warns': run.get('warns'), 'stories': ids_after}})
     # a collection that has completed, merged again: every message is now late
     from mosromgr.moscollection import MosCollection
     from . import impl
